@@ -171,6 +171,20 @@ def run_case(rng, tier, case):
                     case.feature('coarse_empty_interval')
                 except Exception as ex:
                     case.check('restricted.setup_works', False, window=desc.get('coarse'), grid=g, error='%s: %s' % (type(ex).__name__, str(ex)[:160]))
+            # the grid stored and loaded (JSON: how portfolios with their grid are kept / handed to run_from_json): the same points, the same step lengths
+            # in the same main time unit, the same zone
+            if rng.random() < 0.25:
+                try:
+                    import eaopack.serialization as ser
+                    tg_main = Timegrid(s_in, e_in, freq=g['freq'], main_time_unit=g['unit'], timezone=g['tz'])
+                    tgj = ser.load_from_json(ser.to_json(tg_main))
+                    okj = (len(tgj.timepoints) == len(tg_main.timepoints) and all(pd.Timestamp(a_) == pd.Timestamp(b_) for a_, b_ in zip(tgj.timepoints, tg_main.timepoints))
+                           and np.allclose(np.asarray(tgj.dt, float), np.asarray(tg_main.dt, float), rtol=1e-12, atol=0.) and tgj.main_time_unit == tg_main.main_time_unit
+                           and str(tgj.tz) == str(tg_main.tz) and tgj.freq == tg_main.freq)
+                    case.check('grid.json_round_trip_same_grid', bool(okj), grid=g, unit_loaded=str(tgj.main_time_unit), freq_loaded=str(tgj.freq), T_loaded=int(tgj.T),
+                               dt_loaded=[float(x) for x in np.asarray(tgj.dt, float)[:3]], dt=[float(x) for x in np.asarray(tg_main.dt, float)[:3]])
+                except Exception as ex:
+                    case.check('grid.json_round_trip_same_grid', False, grid=g, error='%s: %s' % (type(ex).__name__, str(ex)[:160]))
             # interval data
             inp, ikind = (gen_intervals(rng, g, tz_aware=rng.random() < 0.3) if mode == 'plain' else (None, None))
             if inp is not None:
